@@ -461,21 +461,46 @@ func (s *sim) finalOracles() {
 			// stall handler, its only reader, is gone
 			known = "stallhandler-gone-handler-blocked-on-stallcontrol"
 		}
-		r.Violate(prop, "O5-goroutines-end", known, "%d goroutine(s) still inside the peer 5 simulated minutes after the disconnect (cause %s): %s", len(gs), s.discCause, strings.Join(gs, " | "))
-		// only reached for a listed known finding: let the stuck goroutines
-		// finish so that the bubble can end.  Signals that only arrive now are
-		// marked late: the peer on its own would never have sent them.
-		s.draining = true
-		stuckOut = onlyStallSend
-		for i := 0; i < 20 && len(peerGoroutines()) > 0; i++ {
-			s.p.VerifDrainInternalQueues()
-			time.Sleep(time.Minute)
-			synctest.Wait()
+		// Whether the early exit of the stall handler (KF-C18-3) leaves a
+		// goroutine behind depends on select choices inside the peer.  The
+		// determinism self-test compares event logs, so there the listed
+		// finding is counted but leaves no trace in the log or on the clock.
+		quietKF3 := detMode && known == "stallhandler-gone-handler-blocked-on-stallcontrol" &&
+			r.Known != nil && r.Known.Match(prop, known) != ""
+		if quietKF3 {
+			r.Count("kf3_in_determinism_mode", 1)
+			for i := 0; i < 200 && len(peerGoroutines()) > 0; i++ {
+				s.p.VerifDrainInternalQueues()
+				synctest.Wait()
+			}
+			for _, o := range s.ops {
+				if o.kind == opQueueMsg && !o.nilDone && o.dones == 0 {
+					select {
+					case <-o.done:
+						o.dones = 1
+					default:
+					}
+				}
+			}
+			gs = nil
 		}
-		if gs2 := peerGoroutines(); len(gs2) > 0 {
-			r.Violate(prop, "O5-goroutines-end", "", "%d goroutine(s) still inside the peer after the harness drained its internal queues: %s", len(gs2), strings.Join(gs2, " | "))
+		if len(gs) > 0 {
+			r.Violate(prop, "O5-goroutines-end", known, "%d goroutine(s) still inside the peer 5 simulated minutes after the disconnect (cause %s): %s", len(gs), s.discCause, strings.Join(gs, " | "))
+			// only reached for a listed known finding: let the stuck goroutines
+			// finish so that the bubble can end.  Signals that only arrive now are
+			// marked late: the peer on its own would never have sent them.
+			s.draining = true
+			stuckOut = onlyStallSend
+			for i := 0; i < 20 && len(peerGoroutines()) > 0; i++ {
+				s.p.VerifDrainInternalQueues()
+				time.Sleep(time.Minute)
+				synctest.Wait()
+			}
+			if gs2 := peerGoroutines(); len(gs2) > 0 {
+				r.Violate(prop, "O5-goroutines-end", "", "%d goroutine(s) still inside the peer after the harness drained its internal queues: %s", len(gs2), strings.Join(gs2, " | "))
+			}
+			s.pollDones(false)
 		}
-		s.pollDones(false)
 	}
 
 	// O3 final: a refused remote never got a handshake
